@@ -676,6 +676,26 @@ class Program:
             self._closures = d
         return self._closures.get(fn.path, [])
 
+    def promoted_of(self, fn):
+        """promoted constant bodies of fn and of its closures"""
+        owners = {fn.path} | {c.path for c in self.closures_of(fn)}
+        return [f for f in self.fns.values() if f.kind == 'promoted' and f.root in owners]
+
+    def literals_of(self, fn):
+        """string literals mentioned by fn, its closures and their promoted constants"""
+        out = set()
+        for g in [fn] + self.closures_of(fn) + self.promoted_of(fn):
+            for bb, j, s in g.stmts():
+                if 'lhs' in s:
+                    for o in [s['rv'].get('a'), s['rv'].get('b')] + list(s['rv'].get('ops', [])):
+                        if isinstance(o, dict) and 'str' in o:
+                            out.add(o['str'])
+            for c in g.calls():
+                for a in c.args:
+                    if isinstance(a, dict) and 'str' in a:
+                        out.add(a['str'])
+        return out
+
     def with_closures(self, fn):
         return [fn] + self.closures_of(fn)
 
